@@ -13,7 +13,7 @@ if r.returncode != 0:
     print("patch does not apply:", r.stdout[:500]); sys.exit(2)
 try:
     for p in props:
-        r = sh("cd /verif && ./check %s --tier %s" % (p, tier))
+        r = sh("cd /verif && VERIF_EVIDENCE_DIR=/verif/out/trial-evidence ./check %s --tier %s" % (p, tier))
         v = [l for l in r.stdout.splitlines() if l.startswith("VIOLATION")]
         if v:
             kind = "DETECTED-NOINPUT" if "no-failing-input-found" in v[0] else "DETECTED"
